@@ -50,7 +50,8 @@ ALIAS_POOL = ['ay', 'bee', 'cee', 'dee', 'l', 'L', 'z9', 'nm1']
 GROUP_POOL = ['G1', 'G2', 'Gx', 's']
 PHASE_SETS = [['g', 'l'], ['l', 's'], ['L', 'l'], ['g', 'l', 's'], ['L', 'S', 'g', 'l', 's'], ['l'], ['S', 'g']]
 VALS = [F(0), F(1), F(2), F(-1), F(1, 2), F(1, 4), F(3), F(1024), F(1, 1024), F(-3, 2), F(5)]
-COMPS = [[1, 1], [1, 3], [3, 1], [1, 2], [1, 1, 2], [2, 1, 1], [1, 7], [1], [4], [1, 1, 1, 1], [1, 2, 5], [1, 3, 4, 8]]
+COMPS = [[1, 1], [1, 3], [3, 1], [1, 2], [1, 1, 2], [2, 1, 1], [1, 7], [1], [4], [1, 1, 1, 1], [1, 2, 5], [1, 3, 4, 8],
+         [1, 0], [0, 1], [1, 0, 3], [0, 1, 1], [2, 0, 0], [1, 0, 0, 1], [0, 3, 1, 0]]      # members with a zero share
 
 # every name of the alphabet is defined once in the header of the generated files (n<i> : string, k<i> = KStr n<i>):
 # string literals are by far the most expensive thing for coqc to read
@@ -70,7 +71,8 @@ COQ_HEADER = ('From V Require Import Common.Num C10.Model.\nOpen Scope Q_scope.\
                 'Definition cy := CMany.\nDefinition co := COne.\n'
                 'Definition bn (x : Q) := BVal (VNum x).\nDefinition bv (x : vec) := BVal (VVec x).\n'
                 'Definition bm (x : list vec) := BVal (VMat x).\nDefinition bw := BWr.\nDefinition be := BErr.\n'
-                'Definition og (i : nat) (k : key) := OGet i k.\nDefinition os (i : nat) (k : key) (d : data) := OSet i k d.\n'
+                'Definition og (i : nat) (k : key) := MOp (OGet i k).\nDefinition os (i : nat) (k : key) (d : data) := MOp (OSet i k d).\n'
+                'Definition mo := MOp.\n'
                 'Definition cm (l : list target) (k : nat) : cval := (CMany l, Some k).\n')
 
 # ------------------------------------------------------------------ keys (JSON form <-> python <-> Gallina)
@@ -259,6 +261,16 @@ def gen_mat_source_op(rng, j, cur, n):
         cur[j] = sorted(set(old) | set(sp))
     return [kind, j, src]
 
+def gen_extra_package(rng, chems, more=True):
+    """another property package over the same chemicals in another order (optionally one more chemical), with its own
+    aliases and groups: an indexer can be re-based onto it with reset_chemicals"""
+    cs = [{'ID': c['ID'], 'CAS': c['CAS'], 'names': [], 'MW': c['MW']} for c in chems]
+    rng.shuffle(cs)
+    if more and rng.random() < 0.3:
+        free = [x for x in LETTERS if x not in [c['ID'] for c in cs]]
+        if free: cs.insert(rng.randrange(len(cs) + 1), {'ID': rng.choice(free), 'CAS': '90-00-9', 'names': [], 'MW': 16.0})
+    return {'chems': cs, 'cops': gen_cops(rng, cs, rng.randint(0, 3), tidy=True)}
+
 def small_case(rng):
     malformed = rng.random() < 0.3
     chems = gen_package(rng, tidy=not malformed and rng.random() < 0.7)
@@ -267,9 +279,16 @@ def small_case(rng):
     names = ids + [c['CAS'] for c in chems] + [c[2] for c in cops if c[0] == 'alias'] + [x for c in chems for x in c['names']]
     groups = [c[1] for c in cops if c[0] == 'group']
     glen = {c[1]: len(c[2]) for c in cops if c[0] == 'group'}
-    n = len(chems)
-    ixs = gen_indexers(rng, n)
-    other = rng.sample([c['CAS'] for c in chems] + ['90-00-9'], rng.randint(1, min(n + 1, 4)))
+    n0 = len(chems)
+    ixs = gen_indexers(rng, n0)
+    other = rng.sample([c['CAS'] for c in chems] + ['90-00-9'], rng.randint(1, min(n0 + 1, 4)))
+    pkgs = [gen_extra_package(rng, chems) for _ in range(rng.choice([0, 0, 0, 1, 1, 2]))]
+    specs = [{'chems': chems, 'cops': cops}] + pkgs
+    for sp_ in pkgs:
+        names = names + [c[2] for c in sp_['cops'] if c[0] == 'alias'] + [c['ID'] for c in sp_['chems'] if c['ID'] not in ids]
+        groups = groups + [c[1] for c in sp_['cops'] if c[0] == 'group' and c[1] not in groups]
+    glens = [{c[1]: len(c[2]) for c in sp_['cops'] if c[0] == 'group'} for sp_ in specs]
+    pkof = [0] * len(ixs)                     # the package every indexer is on (changes with 'reset')
     ops = []
     cur = {j: sorted(set(y['phases'])) for j, y in enumerate(ixs) if y['kind'] == 'm'}    # phases change when an indexer gains one
     def whole(x, key):
@@ -280,6 +299,13 @@ def small_case(rng):
         r = rng.random()
         i = rng.randrange(len(ixs))
         x = ixs[i]
+        n = len(specs[pkof[i]]['chems']); glen = glens[pkof[i]]
+        if pkgs and r > 0.94 and rng.random() < 0.5:
+            have = set(c['ID'] for c in specs[pkof[i]]['chems'])
+            ok = [k_ for k_, sp_ in enumerate(specs) if have <= set(c['ID'] for c in sp_['chems'])]   # every CAS must exist in the target
+            k_ = rng.choice(ok)
+            ops.append(['reset', i, k_]); pkof[i] = k_
+            continue
         if r < 0.5:
             key = gen_chem_key(rng, names, groups, malformed) if x['kind'] == 'c' else gen_mat_key(rng, cur[i], names, groups, malformed)
             ops.append(['getm' if rng.random() < 0.2 else 'get', i, key])
@@ -311,14 +337,17 @@ def small_case(rng):
         elif r < 0.95 and cur:
             j = rng.choice(sorted(cur))
             ph = rng.choice(['g', 'l', 's', 'L', 'S'])
+            n = len(specs[pkof[j]]['chems'])
             ops.append([rng.choice(['mixp', 'mixp', 'copyp']), j, ph, [float(rng.choice(VALS)) for _ in range(n)]])
             if ph not in cur[j] and ph.swapcase() not in cur[j]: cur[j] = sorted(cur[j] + [ph])
         elif r < 0.975 and cur:
             j = rng.choice(sorted(cur))
-            ops.append(gen_mat_source_op(rng, j, cur, n))
+            ops.append(gen_mat_source_op(rng, j, cur, len(specs[pkof[j]]['chems'])))
         else:
             ops.append(['index', gen_chem_key(rng, names, groups, True)])
-    return {'chems': chems, 'cops': cops, 'ixs': ixs, 'ops': ops}
+    case = {'chems': chems, 'cops': cops, 'ixs': ixs, 'ops': ops}
+    if pkgs: case['pkgs'] = pkgs
+    return case
 
 def big_case(rng, nops):
     """many distinct keys: fills and evicts both caches"""
@@ -340,8 +369,15 @@ def big_case(rng, nops):
     cur = {1: sorted(set(shared)), 2: sorted(set(shared))}
     spare = [ph for ph in ['g', 'l', 's', 'L', 'S'] if ph not in shared and ph.swapcase() not in shared]
     expand_at = rng.randrange(nops // 3, 2 * nops // 3) if spare else -1
+    pkgs = [gen_extra_package(rng, chems, more=False)] if rng.random() < 0.6 else []
+    pkgs = [dict(sp_, cops=[c for c in sp_['cops'] if not (c[0] == 'alias' and len(c[2]) == 1)]) for sp_ in pkgs]
+    reset_at = rng.randrange(nops // 4, 3 * nops // 4) if pkgs else -1
+    if pkgs and reset_at == expand_at: reset_at += 1
     while len(ops) < nops:
         r = rng.random()
+        if len(ops) == reset_at:
+            ops.append(['reset', 1, 1])      # indexer 2 stays on the old package and keeps its cache
+            continue
         if len(ops) == expand_at:
             ph = rng.choice(spare)
             ops.append([rng.choice(['mixp', 'copyp']), 2, ph, [float(rng.choice(VALS)) for _ in range(n)]])
@@ -381,7 +417,9 @@ def big_case(rng, nops):
             ops.append(['set', i, key, ['n', float(rng.choice(VALS))] if rng.random() < 0.5 else ['v', [float(rng.choice(VALS)) for _ in range(m)]]])
         else:
             ops.append(['get', i, key])
-    return {'chems': chems, 'cops': cops, 'ixs': ixs, 'ops': ops, 'big': True}
+    case = {'chems': chems, 'cops': cops, 'ixs': ixs, 'ops': ops, 'big': True}
+    if pkgs: case['pkgs'] = pkgs
+    return case
 
 def _chems4():
     return [{'ID': x, 'CAS': x, 'names': [], 'MW': 16.0} for x in ['A_', 'B_', 'C_', 'D_']]
@@ -463,7 +501,37 @@ def corpus_mass():
             'ixs': [{'kind': 'c', 'stream': True, 'data': [1.0, 2.0, 3.0, 0.0]},
                     {'kind': 'm', 'stream': False, 'phases': ['g', 'l'], 'data': [[4.0, 5.0, 6.0, 1.0], [1.0, 2.0, 3.0, 0.0]]}]}
 
-CORPUS = [corpus_trim(), corpus_overlap(), corpus_pell(), corpus_expand(), corpus_mass()]
+def corpus_rebase():
+    """a multi-phase indexer is re-based (reset_chemicals) onto a package that orders the chemicals differently and
+    defines the group differently, after keys were cached for the old package; a bystander stays on the old package"""
+    chems = _chems4()
+    for c, mw in zip(chems, [16.0, 32.0, 8.0, 4.0]): c['MW'] = mw
+    p1 = {'chems': [dict(chems[k]) for k in (3, 0, 2, 1)], 'cops': [['group', 'G1', ['A_', 'D_'], None, False], ['alias', 'C_', 'cee']]}
+    ks = [kS('A_'), kS('D_'), kS('G1'), kT([kS('D_'), kS('A_')]), kT([kS('B_'), kS('G1')])]
+    ops = []
+    for k in ks: ops += [['get', 0, kT([kS('l'), k])], ['get', 1, kT([kS('l'), k])], ['get', 0, k]]
+    ops += [['getm', 0, kT([kS('l'), kS('A_')])], ['reset', 0, 1]]
+    for k in ks: ops += [['get', 0, kT([kS('l'), k])], ['get', 1, kT([kS('l'), k])], ['get', 0, k], ['get', 1, k]]
+    ops += [['get', 0, kT([kS('g'), kS('cee')])], ['get', 1, kT([kS('g'), kS('C_')])], ['set', 0, kT([kS('l'), kS('D_')]), ['n', 9.0]],
+            ['get', 0, kS('l')], ['get', 1, kS('l')], ['set', 1, kT([kS('l'), kS('G1')]), ['n', 8.0]], ['set', 0, kT([kS('l'), kS('G1')]), ['n', 8.0]],
+            ['getm', 0, kT([kS('l'), kS('A_')])], ['reset', 2, 1], ['get', 2, kT([kS('D_'), kS('A_')])], ['get', 2, kS('G1')],
+            ['reset', 0, 0], ['get', 0, kT([kS('l'), kS('G1')])], ['get', 0, kS('l')]]
+    return {'chems': chems, 'cops': [['group', 'G1', ['C_', 'B_'], [1.0, 3.0], False]], 'pkgs': [p1], 'ops': ops,
+            'ixs': [{'kind': 'm', 'stream': False, 'phases': ['g', 'l'], 'data': [[1.0, 2.0, 3.0, 4.0], [5.0, 6.0, 7.0, 8.0]]},
+                    {'kind': 'm', 'stream': True, 'phases': ['g', 'l'], 'data': [[0.5, 0.0, 2.0, 0.0], [4.0, 5.0, 6.0, 7.0]]},
+                    {'kind': 'c', 'stream': False, 'data': [1.0, 0.0, 3.0, 4.0]}]}
+
+def corpus_zero_share():
+    """a group with a zero share whose member currently has flow; non-zero scalars on both bases"""
+    chems = _chems4()
+    ops = [['set', 0, kS('G1'), ['n', 8.0]], ['get', 0, kS('G1')], ['set', 0, KE, ['v', [1.0, 2.0, 3.0, 4.0]]], ['setm', 0, kS('G1'), ['n', -4.0]],
+           ['set', 1, kT([kS('l'), kS('G1')]), ['n', 8.0]], ['get', 1, kS('l')], ['set', 1, kT([kS('g'), kT([kS('D_'), kS('G1')])]), ['v', [1.0, 4.0]]],
+           ['set', 1, kT([KE, kS('G1')]), ['n', 2.0]], ['set', 0, kS('G2'), ['n', 3.0]], ['get', 0, KE]]
+    return {'chems': chems, 'cops': [['group', 'G1', ['C_', 'A_', 'B_'], [1.0, 0.0, 3.0], False], ['group', 'G2', ['D_', 'A_'], [0.0, 1.0], True]],
+            'ops': ops, 'ixs': [{'kind': 'c', 'stream': False, 'data': [1.0, 2.0, 3.0, 4.0]},
+                                {'kind': 'm', 'stream': False, 'phases': ['g', 'l'], 'data': [[1.0, 2.0, 3.0, 4.0], [5.0, 6.0, 7.0, 8.0]]}]}
+
+CORPUS = [corpus_trim(), corpus_overlap(), corpus_pell(), corpus_expand(), corpus_mass(), corpus_rebase(), corpus_zero_share()]
 
 def gen_cases(rng, tier):
     if tier == 'quick':
@@ -500,6 +568,21 @@ def spread(small, big, offset):
     return out
 
 # ------------------------------------------------------------------ implementation side
+def build_packages(case):
+    """[main package, extra packages...] with their configuration calls applied, per-package outcomes of those calls;
+    None when the main package does not compile"""
+    chems, cerr_ = build_package(case)
+    if chems is None: return None, None
+    P = [chems] + [build_package(spec)[0] for spec in case.get('pkgs', [])]
+    oks = []
+    for ch, spec in zip(P, [case] + list(case.get('pkgs', []))):
+        ok = []
+        for c in spec['cops']:
+            try: apply_cop(ch, c); ok.append(None)
+            except Exception as e: ok.append(err_of(e))
+        oks.append(ok)
+    return P, oks
+
 def build_package(case):
     """returns (chemicals or None, compile error enum or None)"""
     tmo = env()['tmo']
@@ -618,13 +701,26 @@ def make_other(cas):
     o = tmo.Chemicals(cs); o.compile()
     return o
 
-def run_ops(case, chems, ixs, on_op=None, seen_phases=None):
+def run_ops(case, P, ixs, on_op=None, seen_phases=None, pk_of=None):
+    """P: the property packages (P[0] is the main one); pk_of[i]: the package indexer i is on (updated by 'reset')"""
     ix = env()['ix']
-    n = chems.size
     obs = []
+    if not isinstance(P, list): P = [P]
     if seen_phases is None: seen_phases = set()
+    if pk_of is None: pk_of = [0] * len(ixs)
     for op in case['ops']:
         kind = op[0]
+        pk = pk_of[op[1]] if kind not in ('overlap', 'index') else 0
+        chems = P[pk]; n = chems.size
+        if kind == 'reset':
+            o = ixs[op[1]]
+            o.reset_chemicals(P[op[2]])
+            pk_of[op[1]] = op[2]
+            ob = {'w': None, 'd': dense(o, P[op[2]].size)}
+            if hasattr(o, '_phases'): seen_phases.add((op[2], tuple(o._phases)))
+            obs.append(ob)
+            if on_op: on_op(op, ob)
+            continue
         if kind in ('get', 'getm'):
             o = ixs[op[1]]
             try:
@@ -637,14 +733,14 @@ def run_ops(case, chems, ixs, on_op=None, seen_phases=None):
             if kind == 'mixp': o.mix_from([o, g])
             else: o.copy_like(g)
             ob = {'ph': list(o._phases), 'd': dense(o, n)}
-            seen_phases.add(tuple(o._phases))
+            seen_phases.add((pk, tuple(o._phases)))
         elif kind in ('mixm', 'copym'):
             o = ixs[op[1]]
             m = material_source(chems, op[2])
             if kind == 'mixm': o.mix_from([o, m])
             else: o.copy_like(m)
             ob = {'ph': list(o._phases), 'd': dense(o, n)}
-            seen_phases.add(tuple(o._phases))
+            seen_phases.add((pk, tuple(o._phases)))
         elif kind in ('set', 'setm'):
             o = ixs[op[1]]
             try:
@@ -712,19 +808,28 @@ def run_impl(case):
     out['absent'] = sorted(set(x for x in NAME_POOL + ALIAS_POOL + GROUP_POOL + LETTERS + CAS_POOL + ['nope'] if x not in chems._index))
     out['comps'] = sorted([[k, [fr_json(frac(x)) for x in v]] for k, v in chems._group_mol_compositions.items()])
     out['wcomps'] = sorted([[k, [fr_json(frac(x)) for x in v]] for k, v in chems._group_wt_compositions.items()])
+    P = [chems]; out['other_errs'] = []
+    for spec in case.get('pkgs', []):
+        ch, e = build_package(spec)
+        assert ch is not None, 'extra packages are generated well-formed'
+        errs = []
+        for c in spec['cops']:
+            try: apply_cop(ch, c); errs.append(None)
+            except Exception as ex: errs.append(err_of(ex))
+        P.append(ch); out['other_errs'].append(errs)
     ixs = build_indexers(case, chems)
-    seen_phases = set(tuple(o._phases) for o, x in zip(ixs, case['ixs']) if x['kind'] == 'm')
-    out['obs'] = run_ops(case, chems, ixs, seen_phases=seen_phases)
-    out['cc'] = [[key_of_py(k), canon_index(v[0], k), v[1]] for k, v in chems._index_cache.items()]
-    # every class-level cache this package ever used (an indexer that gained a phase moved on to another one)
-    mcs = {}
+    pk_of = [0] * len(ixs)
+    seen_phases = set((0, tuple(o._phases)) for o, x in zip(ixs, case['ixs']) if x['kind'] == 'm')
+    out['obs'] = run_ops(case, P, ixs, seen_phases=seen_phases, pk_of=pk_of)
+    out['cc'] = [[[key_of_py(k), canon_index(v[0], k), v[1]] for k, v in ch._index_cache.items()] for ch in P]
+    # every class-level cache the packages ever used (an indexer that gained a phase or was re-based moved on to another one)
     caches = env()['ix'].MaterialIndexer._index_caches
-    for phs in seen_phases:
-        mcs[','.join(phs)] = [[key_of_py(k), canon_mval(k, v)] for k, v in caches.get((phs, chems), {}).items()]
-    for o, x in zip(ixs, case['ixs']):
+    out['mc'] = [[pk, list(phs), [[key_of_py(k), canon_mval(k, v)] for k, v in caches.get((phs, P[pk]), {}).items()]]
+                 for pk, phs in sorted(seen_phases)]
+    for o, x, pk in zip(ixs, case['ixs'], pk_of):
+        assert o._chemicals is P[pk]
         if x['kind'] == 'm':
-            assert o._index_cache is caches[(tuple(o._phases), chems)], 'indexer does not use the cache registered for its phases'
-    out['mc'] = sorted(mcs.items())
+            assert o._index_cache is caches[(tuple(o._phases), P[pk])], 'indexer does not use the cache registered for (its phases, its chemicals)'
     return out
 
 # ------------------------------------------------------------------ model side
@@ -759,6 +864,12 @@ def cdata(d):
     return f'(DMat {clist([qlist(r) for r in d[1]])})'
 
 def cop_term(op):
+    k = op[0]
+    if k in ('get', 'set'): return cop_term0(op)
+    if k == 'reset': return f'(MReset {cnat(op[1])} {cnat(op[2])})'
+    return f'(mo {cop_term0(op)})'
+
+def cop_term0(op):
     k = op[0]
     if k == 'get': return f'(og {op[1]} {ckey(op[2])})'
     if k == 'set': return f'(os {op[1]} {ckey(op[2])} {cdata(op[3])})'
@@ -797,10 +908,13 @@ def case_args(case, out):
                   f'(CGroup {cstr(c[1])} {clist(c[2], cstr)} {copt(c[3], qlist)} {cbool(c[4])})' for c in case['cops']])
     return chems, cops
 
+def others_arg(case):
+    return clist(['(%s, %s)' % case_args(spec, None) for spec in case.get('pkgs', [])])
+
 def coq_case(case, out):
     chems, cops = case_args(case, out)
     if out.get('compile_err'):
-        return f'(case_eqb {VARIANT} {chems} {cops} (Some {out["compile_err"]}) [] [] [] [] [] [] [] [] [] [])'
+        return f'(mcase_eqb {VARIANT} {chems} {cops} (Some {out["compile_err"]}) [] [] [] [] [] [] [] [] [] [] [] [])'
     table = clist([f'({cstr(k)}, {ctarget(t)})' for k, t in out['table']])
     absent = clist(out['absent'], cstr)
     comps = clist([f'({cstr(k)}, {cvec(v)})' for k, v in out['comps']])
@@ -808,17 +922,19 @@ def coq_case(case, out):
     ixs = clist([cixr(x) for x in case['ixs']])
     ops = clist([cop_term(o) for o in case['ops']])
     obs = clist([cobs(o) for o in out['obs']])
-    cc = clist([f'(ec {ckey(k)} {ccindex(i)} {ckind(kd)})' for k, i, kd in out['cc']])
-    mc = clist([f'({clist(ph.split(","), cstr)}, {clist([cmentry(k, v) for k, v in ents])})' for ph, ents in out['mc']])
-    return (f'(case_eqb {VARIANT} {chems} {cops} None {clist(out["cop_errs"], cerr)} {table} {absent} {comps} '
-            f'{ixs} {ops} {obs} {cc} {mc})')
+    cc = clist([clist([f'(ec {ckey(k)} {ccindex(i)} {ckind(kd)})' for k, i, kd in ents]) for ents in out['cc']])
+    mc = clist([f'({cnat(pk)}, ({clist(ph, cstr)}, {clist([cmentry(k, v) for k, v in ents])}))' for pk, ph, ents in out['mc']])
+    oerrs = clist([clist(es, cerr) for es in out['other_errs']])
+    return (f'(mcase_eqb {VARIANT} {chems} {cops} None {clist(out["cop_errs"], cerr)} {table} {absent} {comps} '
+            f'{others_arg(case)} {oerrs} {ixs} {ops} {obs} {cc} {mc})')
 
 def coq_show(case, out):
     chems, cops = case_args(case, out)
     ixs = clist([cixr(x) for x in case['ixs']])
     ops = clist([cop_term(o) for o in case['ops'][:80]])
     return (f'(match compile {chems} with Err e => None | Ok c0 => let (c, es) := cbuild c0 {cops} in '
-            f'Some (es, tb c, comps c, snd (run {VARIANT} c (mkst [] [] {ixs}) {ops})) end)')
+            f'let cs := c :: map (fun x => fst (build_pkg x)) {others_arg(case)} in '
+            f'Some (es, tb c, comps c, snd (mrun {VARIANT} cs (minit (length cs) {ixs}) {ops})) end)')
 
 def nontrivial(case, out):
     obs = out.get('obs', [])
@@ -836,8 +952,9 @@ def classify(case, out):
         elif 'ph' in ob: ks.append(f'op:{op[0]}:phases={len(ob["ph"])}')
         else: ks.append(f'op:{op[0]}:{ob["w"] or "ok"}')
     if 'cc' in out:
-        ks.append('chem-cache-full' if len(out['cc']) >= 100 else 'chem-cache-partial')
-        for ph, ents in out['mc']:
+        ks.append('chem-cache-full' if len(out['cc'][0]) >= 100 else 'chem-cache-partial')
+        ks.append('packages:%d' % len(out['cc']))
+        for pk_, ph, ents in out['mc']:
             ks.append('mat-cache>=400' if len(ents) >= 400 else 'mat-cache<400')
     keys = set()
     for op in case['ops']:
@@ -951,6 +1068,21 @@ def declared(case, cop_ok, impl_index):
             wcomps[name] = xw / xw.sum() if len(x) else xw
     return idx, comps, wcomps
 
+def probe_config(case):
+    """the case's package plus: a group with a zero share, a group given by weight with members out of chemical order,
+    and a second package over the same chemicals in reverse order that defines the first group differently"""
+    ids = [c['ID'] for c in case['chems']]
+    used = set(ids) | set(c['CAS'] for c in case['chems']) | set(x for c in case['chems'] for x in c['names']) | set(c[1] for c in case['cops']) | set(c[2] for c in case['cops'] if c[0] == 'alias')
+    cops = list(case['cops'])
+    k = min(3, len(ids))
+    if k >= 2 and 'Gzero_' not in used:
+        cops.append(['group', 'Gzero_', ids[:k][::-1], [1.0, 0.0, 3.0][:k], False])
+    if k >= 2 and 'Gwt_' not in used:
+        cops.append(['group', 'Gwt_', ids[-k:][::-1], [3.0, 1.0, 4.0][:k], True])
+    rev = [{'ID': c['ID'], 'CAS': c['CAS'], 'names': [], 'MW': c['MW']} for c in case['chems']][::-1]
+    p1 = {'chems': rev, 'cops': [['group', 'Gzero_', [rev[0]['ID']], None, False]] if 'Gzero_' not in used else []}
+    return dict(case, cops=cops, pkgs=[p1])
+
 def probe_case(case, index, comps):
     """systematic writes on data whose entries are all non-zero: scalars 0 / 0.0 / -0.0 and a non-zero scalar through
     every key form (names, groups, tuples and lists of names, tuples mixing chemicals and groups in both orders, the
@@ -995,6 +1127,16 @@ def probe_case(case, index, comps):
             ['set', 2, kT([kS('l'), kS(ids[0])]), ['n', 9.0]], ['set', 1, kT([kS('l'), kS(ids[0])]), ['n', 11.0]],
             ['copyp', 2, 'S', list(base)], ['get', 1, kT([kS('s'), idk])], ['get', 2, kT([kS('s'), idk])],
             ['mixm', 1, [['L', list(base)], ['S', [2 * v for v in base]]]], ['copym', 2, [['L', list(base)], ['s', [2 * v for v in base]]]]]
+    # two indexers share a cache; one is re-based onto the reversed package, then both are used; then the single-phase one
+    ixs.append({'kind': 'm', 'stream': False, 'phases': phs, 'data': [list(base), [5 * v for v in base]]})
+    ixs.append({'kind': 'm', 'stream': False, 'phases': phs, 'data': [[6 * v for v in base], [7 * v for v in base]]})
+    for k in keys[:8]:
+        ops += [['get', 3, kT([kS('l'), k])], ['get', 4, kT([kS('g'), k])], ['get', 3, k]]
+    ops += [['getm', 3, kT([kS('l'), idk])], ['reset', 3, 1]]
+    for k in keys[:8]:
+        ops += [['get', 3, kT([kS('l'), k])], ['get', 4, kT([kS('l'), k])], ['get', 3, k], ['get', 4, k]]
+    ops += [['set', 3, kT([kS('l'), kS(ids[0])]), ['n', 13.0]], ['set', 4, kT([kS('l'), kS(ids[-1])]), ['n', 17.0]], ['getm', 3, kT([kS('l'), idk])],
+            ['reset', 0, 1], ['get', 0, idk], ['set', 0, kS(ids[0]), ['n', 3.0]], ['reset', 3, 0], ['get', 3, kT([kS('l'), idk])]]
     return dict(case, ixs=ixs, ops=ops, probe=True)
 
 def oracle(case):
@@ -1002,28 +1144,27 @@ def oracle(case):
     systematic probe writes of probe_case on the same property package"""
     msg = oracle_core(case)
     if msg or case.get('probe'): return msg
-    chems, cerr_ = build_package(case)
-    if chems is None: return None
-    cop_ok = []
-    for c in case['cops']:
-        try: apply_cop(chems, c); cop_ok.append(True)
-        except Exception: cop_ok.append(False)
-    index, comps, wcomps = declared(case, cop_ok, dict(chems._index))
-    msg = oracle_core(probe_case(case, index, comps))
+    ext = probe_config(case)
+    P, oks = build_packages(ext)
+    if P is None: return None
+    index, comps, wcomps = declared(ext, [e is None for e in oks[0]], dict(P[0]._index))
+    msg = oracle_core(probe_case(ext, index, comps))
     return None if msg is None else 'probe-' + msg
 
 def oracle_core(case):
     from thermosteam.base import SparseVector, SparseArray
-    chems, cerr_ = build_package(case)
-    if chems is None: return None
-    cop_ok = []
-    for c in case['cops']:
-        try: apply_cop(chems, c); cop_ok.append(True)
-        except Exception: cop_ok.append(False)
-    index, comps_mol, comps_wt = declared(case, cop_ok, dict(chems._index))
-    index = {k: v for k, v in index.items() if v is not None}
-    n = chems.size
-    MW = np.array([c['MW'] for c in case['chems']], float)
+    P, oks = build_packages(case)
+    if P is None: return None
+    specs = [case] + list(case.get('pkgs', []))
+    D = []        # per package: what the declarations say (table, compositions, MW, IDs)
+    for ch, spec, ok in zip(P, specs, oks):
+        idx_, cm_, cw_ = declared(spec, [e is None for e in ok], dict(ch._index))
+        D.append({'index': {k: v for k, v in idx_.items() if v is not None}, 'cm': cm_, 'cw': cw_, 'chems': ch, 'n': ch.size,
+                  'MW': np.array([c['MW'] for c in spec['chems']], float), 'ids': tuple(c['ID'] for c in spec['chems']),
+                  'cas': [c['CAS'] for c in spec['chems']], 'spec': spec})
+    pk_of = [0] * len(case['ixs'])
+    def ctx(j): return D[pk_of[j]]
+    def where(o): return next(j for j, y in enumerate(ixs) if y is o)
 
     def rows_of(o):
         a = np.asarray(o.data.to_array(), float)
@@ -1035,16 +1176,16 @@ def oracle_core(case):
             if 'mass' not in o._data_cache: continue
             m = np.asarray(o.by_mass().data.to_array(), float)
             if m.ndim == 1: m = m.reshape(1, -1)
-            if not close(m, rows_of(o) * MW):
+            if not close(m, rows_of(o) * ctx(j)['MW']):
                 return (f'mass-view: op {num}: after {what} the mass view of indexer {j} holds {m.tolist()} '
-                        f'but the molar data times MW are {(rows_of(o) * MW).tolist()}')
+                        f'but the molar data times MW are {(rows_of(o) * ctx(j)["MW"]).tolist()}')
         return None
 
     def independent_rows(num, what, o):
         """a write through (phase, ID) changes that entry only -- in particular not the same entry of another row"""
-        ID = case['chems'][0]['ID']
+        ID = ctx(where(o))['ids'][0]
         for r, ph in enumerate(o._phases):
-            if ph in index: continue
+            if ph in ctx(where(o))['index']: continue
             before = rows_of(o)
             try:
                 o[ph, ID] = 977.0 + r
@@ -1060,12 +1201,21 @@ def oracle_core(case):
 
     def sweep(num, what):
         """phase-qualified reads on EVERY multi-phase indexer, interleaved, against its own rows"""
-        ids = tuple(c['ID'] for c in case['chems'])
         ms = [(j, o) for j, (o, x) in enumerate(zip(ixs, case['ixs'])) if x['kind'] == 'm']
+        for j, (o, x) in enumerate(zip(ixs, case['ixs'])):
+            if x['kind'] == 'c':            # single-phase indexers: all IDs of their package
+                ids = ctx(j)['ids']
+                try:
+                    got = o[ids]
+                except Exception as e:
+                    return f'phase-rows: op {num}: after {what}, indexer {j}: reading {ids!r} raised {type(e).__name__}: {e}'
+                if not close(got, rows_of(o)[0]):
+                    return f'phase-rows: op {num}: after {what}, indexer {j}: {ids!r} reads {np.asarray(got).tolist()} but the data are {rows_of(o)[0].tolist()}'
         for rnd in range(2):
             for j, o in (ms if rnd == 0 else ms[::-1]):
+                ids = ctx(j)['ids']
                 for r, ph in enumerate(o._phases):
-                    if ph in index: continue          # a chemical, alias or group named like the phase takes precedence
+                    if ph in ctx(j)['index']: continue          # a chemical, alias or group named like the phase takes precedence
                     for key in ((ph, ids), (ph, ids[0]), (ph, ...)):
                         try:
                             got = o[key]
@@ -1079,25 +1229,45 @@ def oracle_core(case):
         return None
 
     # every declared name resolves to the declared position(s), group members in the user's order
-    for nm, v in index.items():
-        try:
-            got = chems.index(nm)
-        except Exception as e:
-            return f'names:{type(e).__name__}: declared name {nm!r} does not resolve: {e}'
-        if isinstance(v, int):
-            if got != v: return f'names:wrong-position: name {nm!r} of chemical {v} resolves to {got}'
-    # a name carried by two chemicals belongs to neither: it must not resolve (unless an alias/group call defined it later)
-    for nm in sorted(set(x_ for c in case['chems'] for x_ in c['names'] if x_)):
-        owners = [i for i, c in enumerate(case['chems']) if nm in c['names']]
-        if len(owners) > 1 and nm not in index and nm in chems._index:
-            return f'names:ambiguous: name {nm!r} is shared by chemicals {owners} but resolves to {chems._index[nm]}'
-    ixs = build_indexers(case, chems)
+    for d_ in D:
+        for nm, v in d_['index'].items():
+            try:
+                got = d_['chems'].index(nm)
+            except Exception as e:
+                return f'names:{type(e).__name__}: declared name {nm!r} does not resolve: {e}'
+            if isinstance(v, int):
+                if got != v: return f'names:wrong-position: name {nm!r} of chemical {v} resolves to {got}'
+        # a name carried by two chemicals belongs to neither: it must not resolve (unless an alias/group call defined it later)
+        for nm in sorted(set(x_ for c in d_['spec']['chems'] for x_ in c['names'] if x_)):
+            owners = [i for i, c in enumerate(d_['spec']['chems']) if nm in c['names']]
+            if len(owners) > 1 and nm not in d_['index'] and nm in d_['chems']._index:
+                return f'names:ambiguous: name {nm!r} is shared by chemicals {owners} but resolves to {d_["chems"]._index[nm]}'
+    ixs = build_indexers(case, P[0])
     ix = env()['ix']
     for num, op in enumerate(case['ops']):
         kind = op[0]
         mass = kind in ('getm', 'setm')
         if mass: kind = kind[:-1]
+        d_ = D[0] if kind in ('overlap', 'index') else ctx(op[1])
+        index, comps_mol, comps_wt, MW, n, chems = d_['index'], d_['cm'], d_['cw'], d_['MW'], d_['n'], d_['chems']
         comps = comps_wt if mass else comps_mol
+        if kind == 'reset':
+            o = ixs[op[1]]; new_ = D[op[2]]
+            before = rows_of(o)
+            exp = np.zeros((before.shape[0], new_['n']))
+            for j_, cas_ in enumerate(d_['cas']):
+                if before[:, j_].any(): exp[:, new_['index'][cas_]] = before[:, j_]
+            what = f'indexer {op[1]} was re-based (reset_chemicals) from package {pk_of[op[1]]} {d_["ids"]} onto package {op[2]} {new_["ids"]}'
+            try:
+                o.reset_chemicals(new_['chems'])
+            except Exception as e:
+                return f'rebase: op {num}: {what} raised {type(e).__name__}: {e}'
+            pk_of[op[1]] = op[2]
+            if not close(rows_of(o), exp):
+                return f'rebase: op {num}: {what}: data {rows_of(o).tolist()} instead of {exp.tolist()}'
+            msg = sweep(num, what) or (independent_rows(num, what, o) if case['ixs'][op[1]]['kind'] == 'm' else None) or both_bases(num, what)
+            if msg: return 'rebase-' + msg
+            continue
         if kind in ('get', 'set'):
             o = ixs[op[1]]
             x = case['ixs'][op[1]]
